@@ -3,6 +3,7 @@
 From Coq Require Import String List Bool.
 From Coq Require Import NArith.
 From Verif Require Import Lifecycle.ResetSpec Lifecycle.ResetProofs Lifecycle.LifecycleModel Lifecycle.LifecycleProofs.
+From Verif Require Builder.BuilderModel Builder.BuilderLinks Lifecycle.BuilderDirty.
 From VerifGen Require Import ResetFields.
 Import ListNotations.
 Local Open Scope string_scope.
@@ -27,15 +28,17 @@ Proof. exact (check_all_uncovered_nil classes funcs reset_fields_ok). Qed.
 Print Assumptions C16_no_uncovered_member.
 
 (* meaning of "covered": in a function that is a root of the route or reachable from one through extracted call edges there is
-   (1) a resetting write of the whole member, applied to THE OBJECT BEING RESET (r_objs), unconditionally or under a reviewed
-       guard of the route (r_guards: per-emitter loop, own-logger test, hard-reset test, ...), or
-   (2) two such writes in the two branches of one condition (guards g and !g), or
+   (1) a resetting write of the whole member, applied to THE OBJECT BEING RESET (r_objs), every level of whose nesting is an error
+       exit or a reviewed guard of the route (r_guards: per-emitter loop, own-logger test, hard-reset test, ...; guards are compared
+       by the structure of the condition's AST, cexpr_eqb), or
+   (2) two such writes in the two branches of one condition (guards pre ++ [GCond c true] and pre ++ [GCond c false]), or
    (3) all sub-writes of one reviewed idiom, each applied to the object being reset *)
 Theorem C16_covered_means_written :
   forall r c f, covered r (route_writes funcs r) c f = true ->
   (exists w, from_route funcs r w /\ plain_write c f w /\ applies_prop r w) \/
-  (exists w1 w2, from_route funcs r w1 /\ from_route funcs r w2 /\ plain_write c f w1 /\ plain_write c f w2 /\
-                 In (w_obj w1) (r_objs r) /\ In (w_obj w2) (r_objs r) /\ w_guard w2 = String.append "!" (w_guard w1)) \/
+  (exists w1 w2 pre other, from_route funcs r w1 /\ from_route funcs r w2 /\ plain_write c f w1 /\ plain_write c f w2 /\
+                 In (w_obj w1) (r_objs r) /\ In (w_obj w2) (r_objs r) /\
+                 negate_last (w_guard w1) = Some (pre, other) /\ guard_ok r pre = true /\ guard_eqb (w_guard w2) other = true) \/
   (exists s, In s specials /\ sp_class s = c /\ sp_field s = f /\
      forall sub, In sub (sp_subs s) ->
        exists w, from_route funcs r w /\ w_class w = c /\ w_field w = f /\ w_sub w = sub /\ w_how w = sp_how s /\ applies_prop r w).
@@ -91,6 +94,44 @@ Theorem C16_output_independent_of_heap :
     s_core (run h s1) = s_core (run h s2) /\ s_valid (run h s1) = s_valid (run h s2).
 Proof. exact run_independent_of_ambient. Qed.
 Print Assumptions C16_output_independent_of_heap.
+
+(* ------------------------------------------------------------------ the Builder after reinit / detach, on C08's Builder model *)
+
+(* BaseBuilder_clear_all never clears _dirty_section_links (the one BaseBuilder member on the persistent list without a write).
+   On C08's model of the Builder (node list, cursor, pool of removed nodes, cached section links, dirty flag, one-shot state; every
+   emitter call incl. section switching and every node-list edit) a recycled builder -- the initial state with WHATEVER dirty flag the
+   previous use left -- is indistinguishable from a fresh one under every command sequence: same node list, cursor, pool, counters,
+   one-shot state (everything but the cache itself) and the same error code at every step.
+   `supported` lists every command of C08's model as it is today (incl. constant-pool scopes, annotated jumps, invoke and function
+   nodes); it is total with a wildcard, so a command added to the model later falls outside the statement instead of breaking it. *)
+Theorem C16_recycled_builder_equals_fresh :
+  forall rs stale_dirty cs, forallb BuilderDirty.supported cs = true ->
+    BuilderDirty.strip (BuilderModel.run (BuilderDirty.recycled_state rs stale_dirty) cs) =
+    BuilderDirty.strip (BuilderModel.run (BuilderModel.init_state rs) cs) /\
+    BuilderDirty.run_errors (BuilderDirty.recycled_state rs stale_dirty) cs = BuilderDirty.run_errors (BuilderModel.init_state rs) cs.
+Proof. exact BuilderDirty.recycled_builder_equals_fresh. Qed.
+Print Assumptions C16_recycled_builder_equals_fresh.
+
+(* whole Builder lifecycles: after ANY history of generation (emitter calls, section switches, node-list edits) and resets that ends
+   in a reset (detach + attach, or reinit), generating a command sequence gives the node list, cursor, pool, counters, one-shot
+   state and error codes that a fresh builder gives -- here the program's effect is computed by the model, not measured *)
+Theorem C16_builder_history_irrelevant :
+  forall h rs cs b0, forallb BuilderDirty.supported cs = true ->
+    BuilderDirty.strip (BuilderModel.run (fold_left BuilderDirty.do_bl (h ++ [BuilderDirty.BReset rs]) b0) cs) =
+    BuilderDirty.strip (BuilderModel.run (BuilderModel.init_state rs) cs) /\
+    BuilderDirty.run_errors (fold_left BuilderDirty.do_bl (h ++ [BuilderDirty.BReset rs]) b0) cs =
+    BuilderDirty.run_errors (BuilderModel.init_state rs) cs.
+Proof. exact BuilderDirty.builder_history_irrelevant. Qed.
+Print Assumptions C16_builder_history_irrelevant.
+
+(* more generally: any two builders that agree up to the link cache and whose caches are valid-or-dirty (an invariant of every run,
+   BuilderLinks.links_ok_run) stay so and report the same errors *)
+Theorem C16_dirty_flag_harmless :
+  forall cs b1 b2, forallb BuilderDirty.supported cs = true ->
+    BuilderLinks.links_ok b1 -> BuilderLinks.links_ok b2 -> BuilderDirty.same b1 b2 ->
+    BuilderDirty.same (BuilderModel.run b1 cs) (BuilderModel.run b2 cs) /\ BuilderDirty.run_errors b1 cs = BuilderDirty.run_errors b2 cs.
+Proof. exact BuilderDirty.dirty_flag_harmless. Qed.
+Print Assumptions C16_dirty_flag_harmless.
 
 (* the hypotheses above are satisfiable *)
 Example C16_ready_state0 : ready state0 = true.
